@@ -7,7 +7,7 @@ use std::sync::OnceLock;
 use crate::{
     model::{ref_decode, ref_decode_packet, ref_encode, RefRes},
     rng::Rng,
-    scenario::{ErrKind, ReadEv, SizeMode, WriteEv},
+    scenario::{ErrKind, FlushEv, ReadEv, SizeMode, WriteEv},
 };
 
 /// (type byte, frame length) pairs for which an all-zero body decodes to a packet.
@@ -596,4 +596,21 @@ pub fn pick_mode(rng: &mut Rng) -> SizeMode {
     } else {
         SizeMode::Uncompressed
     }
+}
+
+/// A pool of flush events: mostly ready, sometimes Pending (several times) or a short stall.
+pub fn gen_flushes(rng: &mut Rng, n: usize, pending_pm: u64) -> Vec<FlushEv> {
+    let mut v = Vec::new();
+    for _ in 0..n {
+        if pending_pm > 0 && rng.chance(pending_pm, 1000) {
+            for _ in 0..rng.small(3) {
+                v.push(FlushEv::Pending);
+            }
+            if rng.chance(1, 8) {
+                v.push(FlushEv::Stall(rng.range(1, 2000)));
+            }
+        }
+        v.push(FlushEv::Ok);
+    }
+    v
 }
